@@ -85,3 +85,25 @@ Definition ast_cast (k : SyntaxKind) (c : cursor) : option cursor :=
 Definition ast_arg_value_list (c : cursor) : option cursor := arg_value_list c.
 Definition ast_arg_values (c : cursor) : list cursor := child_node_cursors is_arg_value c.
 Definition it_take_while {A : Type} (p : A -> bool) (l : list A) : list A := take_while p l.
+
+(** hover.rs / goto_definition.rs / references.rs *)
+Definition file_pos : Type := (fileid * N)%type.                   (* FilePosition { file, position } *)
+Definition fp_file (p : file_pos) : fileid := fst p.
+Definition fp_position (p : file_pos) : N := snd p.
+Definition sv_entry (v : symview) : entry :=
+  match v with
+  | SvRecord e | SvTemplateArgument e | SvRecordField e | SvVariable e | SvDefset e | SvMulticlass e | SvDefm e => e
+  end.
+Definition sv_define_loc (v : symview) : file_range := e_def (sv_entry v).
+Definition sv_reference_locs (v : symview) : list file_range := e_refs (sv_entry v).
+(** `symbol_map.find_symbol_at(pos)`: Option<Symbol>; the lookup of the found id can panic *)
+Definition sm_find_symbol_at (S : symbol_map) (p : file_pos) : sres (option symview) :=
+  sbind (find_symbol_at S (fst p) (snd p))
+        (fun r => SOk (option_map (fun se : symbol_id * entry => sv_of (fst (fst se)) (snd se)) r)).
+(** `record_field.parent` (0 for an entry that is not a record field: excluded by [kinded]) *)
+Definition en_field_parent (e : entry) : N := match p_field_parent (e_payload e) with Some r => r | None => 0 end.
+(** `variable.kind`: VariableKind is not part of the op log / SymbolMap.v; a match on it is rendered only when all arms agree *)
+Definition en_vkind (e : entry) : unit := tt.
+(** `Hover { signature, document }` *)
+Definition hover_result : Type := (name * option text)%type.
+Definition mk_hover (sig : name) (doc : option text) : hover_result := (sig, doc).
